@@ -243,8 +243,17 @@ func (g *G) planBody(b *schema.BodySchema, depth int, parentAddr string) *BodyPl
 				n = g.pick(2)
 			}
 			g.items += n
+			short := false
 			if bs.MinItems > 0 && uint64(n) < bs.MinItems {
-				n = int(bs.MinItems)
+				if !g.O.NoOddities && g.coin(0.4) {
+					// fewer static blocks than the minimum: with a dynamic block of the type
+					// the minimum is satisfied, without one it is a violation
+					n = g.pick(int(bs.MinItems))
+					short = true
+					bp.Injected = append(bp.Injected, "maybe-too-few-blocks:"+bt)
+				} else {
+					n = int(bs.MinItems)
+				}
 			}
 			if bs.MaxItems > 0 && uint64(n) > bs.MaxItems {
 				n = int(bs.MaxItems)
@@ -256,7 +265,7 @@ func (g *G) planBody(b *schema.BodySchema, depth int, parentAddr string) *BodyPl
 			for i := 0; i < n; i++ {
 				bp.Items = append(bp.Items, &Item{Block: g.planBlock(bt, bs, depth-1)})
 			}
-			if ext != nil && ext.DynamicBlocks && bs.Body != nil && !tight && !g.O.Simple && g.coin(0.25) {
+			if ext != nil && ext.DynamicBlocks && bs.Body != nil && !g.O.Simple && ((!tight && g.coin(0.25)) || (short && g.coin(0.6))) {
 				blk := g.planBlock(bt, bs, depth-1)
 				blk.Dynamic = true
 				bp.Items = append(bp.Items, &Item{Block: blk})
@@ -499,6 +508,9 @@ func (g *G) fillBody(bp *BodyPlan, locals []Decl) {
 						}
 					}
 					it.Attr.Expr = g.Expr(it.Attr.Schema.Constraint, 3, outer)
+				} else if containsAddressableRef(it.Attr.Schema.Constraint, 0) {
+					// written traversals become declarations themselves: no block-local names
+					it.Attr.Expr = g.Expr(it.Attr.Schema.Constraint, 3, nil)
 				} else {
 					it.Attr.Expr = g.Expr(it.Attr.Schema.Constraint, 3, locals)
 				}
@@ -812,4 +824,39 @@ func renderBody(sb *strings.Builder, bp *BodyPlan, indent string) {
 			sb.WriteString(indent + "}\n")
 		}
 	}
+}
+
+func containsAddressableRef(c schema.Constraint, depth int) bool {
+	if depth > 6 {
+		return false
+	}
+	switch t := c.(type) {
+	case schema.Reference:
+		return t.Address != nil
+	case schema.List:
+		return t.Elem != nil && containsAddressableRef(t.Elem, depth+1)
+	case schema.Set:
+		return t.Elem != nil && containsAddressableRef(t.Elem, depth+1)
+	case schema.Map:
+		return t.Elem != nil && containsAddressableRef(t.Elem, depth+1)
+	case schema.Tuple:
+		for _, e := range t.Elems {
+			if containsAddressableRef(e, depth+1) {
+				return true
+			}
+		}
+	case schema.OneOf:
+		for _, e := range t {
+			if containsAddressableRef(e, depth+1) {
+				return true
+			}
+		}
+	case schema.Object:
+		for _, a := range t.Attributes {
+			if a.Constraint != nil && containsAddressableRef(a.Constraint, depth+1) {
+				return true
+			}
+		}
+	}
+	return false
 }
